@@ -196,6 +196,9 @@ func init() {
 		for phase := 0; phase < 2; phase++ {
 			cases = append(cases, &stallCase{name: "gaps-longer-than-send-timeout", phase: phase, mode: "gaps", ct: 300 * time.Millisecond, st: 100 * time.Millisecond, rt: 2 * time.Second, mustSucceed: true})
 		}
+		// a device that is slow but inside the time-outs: it answers the authentication and the request 300 ms after each
+		// arrives, the receive time-out is 500 ms — every exchange has its own time-out, the call succeeds
+		cases = append(cases, &stallCase{name: "slow-inside-timeouts", phase: 9, mode: "slow", ct: 300 * time.Millisecond, st: 500 * time.Millisecond, rt: 500 * time.Millisecond, mustSucceed: true})
 		// zero / negative timeouts must fall back to 3 s, not to "no timeout"
 		cases = append(cases, &stallCase{name: "default-timeouts", phase: 1, offset: 10, mode: "stall", ct: 0, st: -1, rt: 0})
 		runStall := func(c *stallCase) {
@@ -338,6 +341,9 @@ func init() {
 						}
 					}
 					encReply()
+					if c.mode == "slow" {
+						time.Sleep(300 * time.Millisecond)
+					}
 					b.Write(ct)
 					reqNo++
 				}
@@ -496,7 +502,7 @@ func init() {
 			} else if c.res == "panic" {
 				prop = "FAIL C10 client panics"
 			} else if c.mustSucceed && c.res != "ok" {
-				prop = fmt.Sprintf("FAIL C07 a reply delivered in pieces 250 ms apart, inside the receive time-out of %v, is not returned (result %s after %v; send time-out %v) ;; FAIL C10 the receive path is governed by the send time-out", c.rt, c.res, c.took.Round(time.Millisecond), c.st)
+				prop = fmt.Sprintf("FAIL C07 a reply that arrives inside the receive time-out of %v (scenario %s) is not returned (result %s after %v; send time-out %v) ;; FAIL C10 the time-outs are not applied per blocking operation ;; FAIL C08 a call against a healthy but slow peer fails", c.rt, c.name, c.res, c.took.Round(time.Millisecond), c.st)
 			}
 			eff, _ := rscp.VerifCheckConfig(rscp.ClientConfig{Address: "a", Username: "u", Password: "p", Key: "k", ConnectionTimeout: c.ct, SendTimeout: c.st, ReceiveTimeout: c.rt})
 			cw.add(fmt.Sprintf("bound %d %d %d", int64(c.ct), int64(c.st), int64(c.rt)),
